@@ -584,10 +584,12 @@ def run_pipeline(case: Dict[str, Any], extra_collection_keys: Optional[Dict[str,
                 if extra_collection_keys:
                     cm.update(extra_collection_keys)
                 ds = ds.MetaData(cm)
-                for md in case_mds(case):
-                    ds = ds.MetaData({"metadata_type": "add_method_type_info", **md})
-                for e in case.get("enums", []):
+                # func_adl's extract_metadata hands the dictionaries over outermost call first: apply them in reverse so
+                # that process_metadata sees `case_mds(case)` in list order (the order the model and the Spec use)
+                for e in reversed(case.get("enums", [])):
                     ds = ds.MetaData({"metadata_type": "define_enum", "namespace": e["ns"], "name": e["name"], "values": list(e["values"])})
+                for md in reversed(case_mds(case)):
+                    ds = ds.MetaData({"metadata_type": "add_method_type_info", **md})
                 q = eval(query_src(case), {"ds": ds})
                 a = q.value()
                 exe = _executor(backend)
@@ -878,6 +880,12 @@ def random_world(rng) -> Dict[str, Any]:
                 cname = f"Vec_{ebase}_{edepth}" if custom else None
                 sigs.append(mk_coll_sig(rng, owner, m, ebase, edepth, cname, rng.choice([0, 0, 1, 1, 2, 3]) if custom else 0, deref,
                                         econst=(edepth > 0 and rng.random() < 0.15)))
+    if rng.random() < 0.2:  # a later declaration of the same method replaces the earlier one (as metadata replaces a backend default)
+        old = rng.choice(sigs)
+        if rng.random() < 0.5:
+            sigs.append(mk_value_sig(rng, old["owner"], old["m"], rng.choice(CLASSES[1:]), rng.choice([0, 1, 2]), rng.choice([None, 1]), None))
+        else:
+            sigs.append(mk_value_sig(rng, old["owner"], old["m"], rng.choice(ARITH), 0, rng.choice([None, 0, 2]), rng.choice([None, "float"])))
     return {"backend": backend, "sigs": sigs, "enums": enums}
 
 
@@ -1018,7 +1026,8 @@ def in_exclusion(model_cols) -> Optional[str]:
     return None
 
 
-HOW_PIPE = ("declare `case.mds` / `case.enums` and the event collection through MetaData on a func_adl EventDataset, build `case.query`, run "
+HOW_PIPE = ("declare the event collection, then `case.enums` and `case.mds` in REVERSE list order through .MetaData on a func_adl EventDataset (extract_metadata returns the "
+            "outermost call first, so process_metadata sees them in list order), build `case.query`, run "
             "<backend>_executor().apply_ast_transformations + write_cpp_files; `observed` holds the emitted lines; ./check C10 --replay <this file>")
 
 
@@ -1309,7 +1318,7 @@ def run(ctx):
     thorough = ctx.tier == "thorough"
     ex = list(exhaustive_worlds(ctx.tier))
     judge_pipeline(ctx, "exhaustive", ex, compile_all=thorough, compile_sample=60)
-    n = 600 if not thorough else 6000
+    n = 450 if not thorough else 6000
     rnd = [random_case(ctx.rng) for _ in range(n)]
     for lo in range(0, len(rnd), 1000):
         judge_pipeline(ctx, "random", rnd[lo:lo + 1000], compile_all=thorough, compile_sample=140)
